@@ -29,7 +29,7 @@ PROP = dict(
     exhaustive=dict(quick=True, thorough=True),
     technique="TLA+ specs FastCGI.tla / FcgiRoute.tla model-checked by TLC; record traces of the real FastCGI client validated by TLC against FastCGITrace.tla; response framings and routing table replayed against the real client and running casket instances",
     level_text="TLC explores the code-shaped model of FCGIClient.Do (writePairs thresholds, bufio/streamWriter record splitting) for every sequence of boundary-sized name/value pairs and body lengths and checks the wire-level invariants a conforming responder needs; the same invariants are then checked by TLC on the record headers a byte-level responder captured from the real client for every one of those cases (trace validation), while the decoded pairs and stdin bytes are compared with what was sent. Every responder framing TLC enumerates (record splits, stderr interleavings, terminators, padding, Status present/absent) is played to the real client and the client view compared with the model; the routing/split decision table of FcgiRoute.tla is replayed against casket instances; an env battery runs through casket against the scripted responder and Go's net/http/fcgi child.",
-    level_note="Trusted: TLC; the boundary sets of FastCGI.tla (19 pair shapes, 12 body lengths, <=3 pairs; 6 output units in <=4 records, <=2 stderr units, each concretised as a burst of 1..350 stderr records); ext as .php/.PHP/php/absent; Go's net/http for HTTP/1.1 framing and net/http/fcgi as reference responder. Not covered: several rules per site, `except`, split strings that do not occur in the extension, unix sockets, srv:// upstreams, TLS variables.",
+    level_note="Trusted: TLC; the boundary sets of FastCGI.tla (19 pair shapes, 12 body lengths, <=3 pairs; 6 output units in <=4 records, <=2 stderr units, each concretised as a burst of 1..350 stderr records); ext as .php/.PHP/php/absent; Go's net/http for HTTP/1.1 framing and net/http/fcgi as reference responder. Rules: one rule, or two with an `except` on the first. Not covered: split strings that do not occur in the extension, unix sockets, srv:// upstreams, TLS variables.",
     assumptions=["loopback TCP; one request per FastCGI connection (the client never keeps connections alive)",
                  "bounded boundary-value sets of FastCGI.tla; file tree and request alphabet of FcgiRoute.tla on a case-sensitive file system",
                  "pairs that do not fit a 65 500-byte record may be cut (the statement leaves them open): only a prefix of the value is required"],
